@@ -1,4 +1,5 @@
 import TakVerif.Props.C05_gen3
+import TakVerif.Proofs.SearchFrames
 
 /-! `next_iterate_statement` of `Props/C05_gen3.lean` PROVED (work package "gen7"): the regenerated `moveGenerator.Next` (`ai/moves.go`,
 `Generated/FuncsMoveIter.lean`) driven from `Reset` is the model's `iterate` (`Impl/MoveGen.lean`) for every loop body.
@@ -613,5 +614,56 @@ theorem next_iterate_unrestricted_false : ¬ next_iterate_unrestricted (P := Nat
   decide
 
 end top
+
+section searchBodies
+variable {P : Type}
+
+/-- `hbody` of `next_iterate` from the frame lemma of `Proofs/SearchFrames.lean` -/
+theorem hbody_of_frBody {σ ρ : Type} {body : Gen.Move → P → σ → Eng Gen.Move → Except Tak.Err (Ctl σ ρ × Eng Gen.Move)}
+    (h : FrBody 15 body) : ∀ m c a s x, s.stackM.size = 15 → body m c a s = .ok x → x.2.stackM.size = 15 :=
+  fun m c a s x hs hb => h m c a s hs x hb
+
+variable (g : Game P Gen.Move) (cfg : SOpts) (o : Oracle Gen.Move) (p : P) (mg : MG Gen.Move) (s : Eng Gen.Move)
+  (hEq : g.moveEq = Gen.moveEqual) (hzero : g.zeroMove = default) (hply : mg.ply < 15) (hst : s.stackM.size = 15)
+  (hNoPanic : ∀ m e, g.apply p m = .error e → ∃ t, e = .illegal t) (hord : ∀ k l, (o.order k l).length ≤ l.length)
+include hEq hzero hply hst hNoPanic hord
+
+/-- **the child loop of `zwSearch`** (`Impl/Minimax.lean` `zwNode`: `iterate … (zwBody …)`) **is the loop over the regenerated `Next`** -
+no hypothesis on the body is left: the recursive search (`search … k`, any number of frames, any options / oracle of its own) keeps the
+15 frames (`Search.search_fr`). -/
+theorem next_iterate_zwSearch (cfg' : SOpts) (o' o'' : Oracle Gen.Move) (k ply : Nat) (depth α : Int) (cut : Bool) (a : ZwAcc Gen.Move) :
+    driveNext g cfg o p mg (zwBody o'' (search g cfg' o' k).2 ply depth α cut) ((g.allMoves p).length + 5) (0, #[], true, default) a s =
+      iterate g cfg o p mg (zwBody o'' (search g cfg' o' k).2 ply depth α cut) a s :=
+  next_iterate _ _ g cfg o p mg _ a s hEq hzero hply hst hNoPanic hord
+    (hbody_of_frBody (zwBody_fr o'' (search_fr g cfg' o' 15 k).2 ply depth α cut))
+
+/-- the multi-cut loop of `zwSearch` (`iterate … (mcBody …)`) -/
+theorem next_iterate_multiCut (cfg' : SOpts) (o' : Oracle Gen.Move) (k ply : Nat) (depth α : Int) (cut : Bool) (a : McAcc Gen.Move) :
+    driveNext g cfg o p mg (mcBody (search g cfg' o' k).2 ply depth α cut) ((g.allMoves p).length + 5) (0, #[], true, default) a s =
+      iterate g cfg o p mg (mcBody (search g cfg' o' k).2 ply depth α cut) a s :=
+  next_iterate _ _ g cfg o p mg _ a s hEq hzero hply hst hNoPanic hord
+    (hbody_of_frBody (mcBody_fr (search_fr g cfg' o' 15 k).2 ply depth α cut))
+
+/-- the child loop of `pvSearch` (`iterate … (pvBody …)`) -/
+theorem next_iterate_pvSearch (cfg' : SOpts) (o' o'' : Oracle Gen.Move) (k ply : Nat) (depth β : Int) (dedup : Bool) (a : PvAcc Gen.Move) :
+    driveNext g cfg o p mg (pvBody g o'' (search g cfg' o' k).1 (search g cfg' o' k).2 ply depth β dedup) ((g.allMoves p).length + 5)
+        (0, #[], true, default) a s =
+      iterate g cfg o p mg (pvBody g o'' (search g cfg' o' k).1 (search g cfg' o' k).2 ply depth β dedup) a s :=
+  next_iterate _ _ g cfg o p mg _ a s hEq hzero hply hst hNoPanic hord
+    (hbody_of_frBody (pvBody_fr g o'' (search_fr g cfg' o' 15 k).1 (search_fr g cfg' o' 15 k).2 ply depth β dedup))
+
+/-- the root loops of `AnalyzeAll` and of `GetMove`'s randomised choice (`iterate … (aaBody …)`, `iterate … (gmBody …)`) -/
+theorem next_iterate_analyzeAll (cfg' : SOpts) (o' : Oracle Gen.Move) (depth : Int) (pv0 : Gen.Move) (rest : List Gen.Move) (v : Int)
+    (a : List (List Gen.Move)) :
+    driveNext g cfg o p mg (aaBody g cfg' o' depth pv0 rest v) ((g.allMoves p).length + 5) (0, #[], true, default) a s =
+      iterate g cfg o p mg (aaBody g cfg' o' depth pv0 rest v) a s :=
+  next_iterate _ _ g cfg o p mg _ a s hEq hzero hply hst hNoPanic hord (hbody_of_frBody (aaBody_fr g cfg' o' depth pv0 rest v))
+
+theorem next_iterate_getMove (cfg' : Cfg) (o' : Oracle Gen.Move) (depth : Int) (rest : List Gen.Move) (v base : Int) (a : GmAcc Gen.Move) :
+    driveNext g cfg o p mg (gmBody g cfg' o' depth rest v base) ((g.allMoves p).length + 5) (0, #[], true, default) a s =
+      iterate g cfg o p mg (gmBody g cfg' o' depth rest v base) a s :=
+  next_iterate _ _ g cfg o p mg _ a s hEq hzero hply hst hNoPanic hord (hbody_of_frBody (gmBody_fr g cfg' o' depth rest v base))
+
+end searchBodies
 
 end C05
